@@ -20,7 +20,7 @@ def describe(tier):
                 % (nmax, 20),
         'bounds': 'n<=%d exhaustive over inputs; 3 keys' % nmax,
         'assumptions': ['n = 1 is outside the property (it starts at n = 2)', 'non-default constructions: even round counts {2,4,6,8,12,16} x {sha1,sha256,md5,sha512}, all inputs of n = 2..8 (10); an odd round count is outside (upstream pyffx construction: with unequal halves it is its own inverse only for an even number of rounds; nothing in the library uses one)', 'keys are DRBG values (3 per width)'],
-        'must_be_nonzero': ['ffx-exhaustive-widths', 'ffx-nondefault-construction', 'ffx-key-histories', 'ffx-wide', 'fpeprp-contract', 'lr-2byte-exhaustive', 'lr-4byte-slices', 'lr-contract-refused'],
+        'must_be_nonzero': ['ffx-exhaustive-widths', 'ffx-nondefault-construction', 'ffx-key-histories', 'ffx-operator-built-messages', 'ffx-wide', 'fpeprp-contract', 'lr-2byte-exhaustive', 'lr-4byte-slices', 'lr-contract-refused'],
     }
 
 
@@ -93,6 +93,20 @@ def run_unit(p, tier, seed):
             if int(w) != x or len(w) != n:
                 r.v(PROPERTY, 'BitwiseFFX', 'inverse', 'encrypt(decrypt(x))', case, (x, n), (int(w), len(w)))
             image.add(int(y))
+            if n <= 8 and not p.get('rounds'):
+                # the same n-bit string arrived at through Bitset operators instead of the constructor: same image
+                m_ = (x * 5 + 3) % (1 << n)
+                for how, msg in (('xor', Bitset(x ^ m_, n) ^ Bitset(m_, n)), ('shift', (Bitset(x, n) << 0) >> 0), ('and', Bitset(x, n) & Bitset((1 << n) - 1, n)),
+                                 ('invert-twice', ~~Bitset(x, n))):
+                    r['transitions'] += 1
+                    try:
+                        y2 = f.encrypt(key, msg)
+                    except Exception as e:
+                        r.v(PROPERTY, 'BitwiseFFX', 'raises', 'operator-built-message/%s:%s' % (how, type(e).__name__), case, 'encrypt succeeds', core.exc_text(e))
+                        continue
+                    if int(y2) != int(y) or len(y2) != n:
+                        r.v(PROPERTY, 'BitwiseFFX', 'not-a-function', 'operator-built-message/' + how, case, (int(y), n), (int(y2), len(y2)))
+                r.count('ffx-operator-built-messages')
         r['states'] += 1 << n
         if len(image) != (1 << n):
             r.v(PROPERTY, 'BitwiseFFX', 'bijection', 'collision', {'n': n, 'key_index': ki, 'x': 'all'}, '%d distinct images' % (1 << n), len(image))
